@@ -114,6 +114,39 @@ class Spec:
             return st, {}
         ops.append(Op("queries_on_live_object", None, live_queries))
 
+        def sibling(st):
+            # ANOTHER arm of the same kind (same joint count; other geometry/base where the family has a seed) is built and
+            # used in the same process while this one is alive: FK, randomPos, a move, a tool change, queries.  Nothing of
+            # that may show on this arm - the model is left as it is and the invariant is asked of this arm afterwards
+            # (anything kept at class or module level - a scratch vector, a memo keyed by size - is shared between the two).
+            b, mb = armlib.build(self.name, self.seed + 1)
+            with armlib.scripted_random(FR2), armlib.quiet():
+                b.FK(mb.clamp(self.TH["g2"] * 0.9 + 0.05))
+                b.randomPos()
+                b.move(self.tm(B1.copy()))
+                b.getJointTransforms()
+                b.jacobian()
+                b.setArbitraryHome(self.tm(b.getEEPos().gTM() @ X2), None)
+                b.FK(mb.clamp(self.TH["g1"] * 0.5 - 0.1))
+            st.sibling = b           # stays alive with the state (and is deep-copied with it)
+            tha = armlib.joint_state(st.arm)
+            if not (np.all(tha >= st.ref.lo - 1e-12) and np.all(tha <= st.ref.hi + 1e-12)):
+                st.unclamped = True  # (a fresh arm whose ranges exclude 0: the pose on record is that of the stored vector)
+            return st, {}
+        ops.append(Op("a_second_arm_of_the_same_kind_is_built_and_used", None, sibling))
+
+        def then_sibling(first):
+            # one call on this arm and the second arm's activity inside ONE transition: states are snapshotted by deep copy
+            # between transitions, which would silently un-share a buffer the two live objects have in common
+            def f(st):
+                st, obs = first(st)
+                st, _ = sibling(st)
+                return st, obs
+            return f
+        ops.append(Op("randomPos_then_a_second_arm_is_used", "FR", then_sibling(self._rand(FR))))
+        ops.append(Op("FK_then_a_second_arm_is_used", "g1", then_sibling(self._fk("g1"))))
+        ops.append(Op("IK_then_a_second_arm_is_used", "near", then_sibling(self._ik("near", False))))
+
         def nudged(m):      # the base where it stands, its position stretched by 3e-6 (a move by micrometres, every matrix
             B = m.base.copy()   # entry within 1e-5 relative of the old one)
             B[:3, 3] = B[:3, 3] * (1.0 + 3e-6)
@@ -133,7 +166,8 @@ class Spec:
 
     def state_key(self, st):
         from mc import canon
-        return canon.flatten([st.arm, st.ref.base, st.ref.M, st.ref.th, st.loose, st.unclamped, st.tool_changed])
+        return canon.flatten([st.arm, st.ref.base, st.ref.M, st.ref.th, st.loose, st.unclamped, st.tool_changed,
+                              getattr(st, "sibling", None) is not None])
 
     # ---- transitions -------------------------------------------------------------------------------------------
     def _fk(self, k):
@@ -340,7 +374,7 @@ def run(ctx):
             results.append((name, explorer.explore(ctx, MOD, name, depth, pool, chunk=8)))
     cov = explorer.merge(results)
     cov["rule"] = ("BFS over histories of {FK x7, IK x6 (limit-respecting/free x near/far/unreachable), move x2, move(stationary), "
-                   "setArbitraryHome x3, restoreOriginalEE, randomPos x2} per arm; every reached state compared with a product-of-exponentials reference")
+                   "setArbitraryHome x3, restoreOriginalEE, randomPos x2, caller edits its pose object, queries on the live object, a second arm of the same kind built and used alongside} per arm; every reached state compared with a product-of-exponentials reference")
     cov["alphabet_size"] = results[0][1]["alphabet_size"]
     ctx.coverage.update(cov)
     ctx.assumptions += ["reference built from copies of the construction data (URDF arms: from the freshly loaded arm; the loader is C13's subject)",
